@@ -43,7 +43,7 @@ Proof. exact no_fields_no_guard. Qed.
 Print Assumptions C05_no_fields_no_guard.
 
 (* the kwargs call sends the message with those fields set; so does passing that message (one corner spelled out:
-   a cross-package proto-plus request with no set field is replaced by a new empty message) *)
+   a cross-package proto-plus request whose set fields all hold false values is replaced by a new empty message) *)
 Theorem C05_flattened_equiv : forall v m cross pp inf kw,
   NoDup (map fst m) -> fm_wf m -> kw_wf m kw -> no_empty_dotted m kw ->
   (v = Async -> cross = true -> ctor_ok m inf) ->
@@ -52,7 +52,7 @@ Theorem C05_flattened_equiv : forall v m cross pp inf kw,
     exec (emit v m cross pp inf) (RMsg (request_of m kw)) [] = OSend r2 /\
     req_equiv r1 (request_of m kw) /\
     (r2 = request_of m kw \/
-     (cross = true /\ pp = true /\ entries (request_of m kw) = [] /\ r2 = empty_req)).
+     (cross = true /\ msg_falsy pp (request_of m kw) = true /\ r2 = empty_req)).
 Proof. exact flattened_equiv. Qed.
 Print Assumptions C05_flattened_equiv.
 
@@ -146,3 +146,20 @@ Theorem C05_sync_async_agree_empty_container_dotted_refuted :
                    vivified "book" r1 = true /\ vivified "book" r2 = false /\ vivified "book" (request_of m kw) = true).
 Proof. exact empty_container_dotted_refuted. Qed.
 Print Assumptions C05_sync_async_agree_empty_container_dotted_refuted.
+
+Theorem C05_reserved_in_pb2_request_refuted :
+  let input := mkMsg false [scalar "name"; scalar "type"] in
+  fields_mapping [] input true ["name"] <> None /\ fields_mapping [] input true ["name,type"] = None /\
+  fields_mapping [] (mkMsg true [scalar "name"; scalar "type"]) false ["name,type"] <> None.
+Proof. exact reserved_in_pb2_request_refuted. Qed.
+Print Assumptions C05_reserved_in_pb2_request_refuted.
+
+Theorem C05_flattened_equiv_falsy_request_refuted :
+  let input := mkMsg true [mkField "level" TScalar false false false true] in
+  exists m, fields_mapping [] input true ["level"] = Some m /\
+    exec (emit Sync m true true ["level"]) RNone [("level", LS "")] = OSend (mkReq [("level", LS "")] []) /\
+    request_of m [("level", LS "")] = mkReq [("level", LS "")] [] /\
+    exec (emit Sync m true true ["level"]) (RMsg (mkReq [("level", LS "")] [])) [] = OSend empty_req /\
+    exec (emit Async m true true ["level"]) (RMsg (mkReq [("level", LS "")] [])) [] = OSend empty_req.
+Proof. exact falsy_request_refuted. Qed.
+Print Assumptions C05_flattened_equiv_falsy_request_refuted.
